@@ -7,7 +7,7 @@ def run(ps):
     p, s = ps
     env = dict(os.environ); env['TV_STAGE'] = f'audit{s}'
     try:
-        out = subprocess.run([tv, p, '--tier', 'quick', '--seed', s], cwd='/verif', env=env, stdout=subprocess.PIPE, stderr=subprocess.STDOUT, text=True, timeout=1800).stdout
+        out = subprocess.run([tv, p, '--tier', os.environ.get('AUDIT_TIER', 'quick'), '--seed', s], cwd='/verif', env=env, stdout=subprocess.PIPE, stderr=subprocess.STDOUT, text=True, timeout=int(os.environ.get('AUDIT_TIMEOUT', '1800'))).stdout
     except subprocess.TimeoutExpired:
         return p, s, None, ['TIMEOUT'], ''
     hits = {}
@@ -31,6 +31,6 @@ kf = json.load(open('/verif/known_findings.json'))
 for p in props:
     listed = [f['id'] for f in kf['findings'] if f['property'] == p]
     res[p]['never_hit'] = [i for i in listed if i not in res[p]['hit']]
-json.dump(res, open('/verif/scratch/kf_audit.json', 'w'), indent=1)
+json.dump(res, open('/verif/scratch/kf_audit_' + os.environ.get('AUDIT_TIER', 'quick') + '.json', 'w'), indent=1)
 for p in props:
     print(p, 'never_hit:', res[p]['never_hit'], 'unexplained:', list(res[p]['unexplained'])[:8])
